@@ -303,6 +303,9 @@ round `k = 6` (both are inputs `factor()` can hand over) -/
 example : squfof exactSeed 58447 = some (some (211, 277)) := by decide +kernel
 example : squfof exactSeed 61601 = some (some (229, 269)) := by decide +kernel
 
+/-- the LAST multiplier: `163³` fails in rounds 1..49 and is split in round `k = 50` -/
+example : squfof exactSeed 4330747 = some (some (163, 26569)) := by decide +kernel
+
 /-- the square exit -/
 example : squfof exactSeed 49729 = some (some (223, 223)) := by decide +kernel
 
